@@ -263,9 +263,8 @@ Definition exps_of (chunks : list (nat * sval)) : option (list E) :=
 Definition pymax_list (l : list E) : option E :=
   match l with [] => None | x :: r => Some (fold_left emax r x) end.
 Definition is_scal (m : mant) : bool := match m with MScal _ => true | MArr _ => false end.
-Definition arr_len (m : mant) : nat := match m with MArr x => length x | MScal _ => 1 end.
 
-Definition gather_stack (chunks : list (nat * sval)) : option (list (nat * mant) * option E) :=
+Definition gather_stack (chunk0d : bool) (chunks : list (nat * sval)) : option (list (nat * mant) * option E) :=
   match chunks with
   | [] => None
   | (_, Plain _) :: _ =>
@@ -282,9 +281,10 @@ Definition gather_stack (chunks : list (nat * sval)) : option (list (nat * mant)
               let res := map (fun kc => (fst kc, match snd kc with
                                                  | Strip m e => mscale_r m (epow e em)
                                                  | Plain m => m end)) chunks in
-              (* np.stack: a Python scalar among arrays of more than one entry raises *)
-              if existsb (fun km => is_scal (snd km)) res
-                 && existsb (fun km => negb (is_scal (snd km)) && negb (Nat.eqb (arr_len (snd km)) 1)) res
+              (* np.stack: a Python scalar next to arrays that are not 0-d raises; chunk0d = the
+                 chunks are 0-d, i.e. every output index is sliced *)
+              if existsb (fun km => is_scal (snd km)) res && negb chunk0d
+                 && existsb (fun km => negb (is_scal (snd km))) res
               then None
               else Some (res, Some em)
           end
@@ -304,10 +304,10 @@ Definition contract_sum (strip cz : bool) prog slices : option sval :=
   | None => None
   | Some l => gather_sum l
   end.
-Definition contract_stack (strip cz : bool) prog (keys : list nat) slices :=
+Definition contract_stack (strip cz chunk0d : bool) prog (keys : list nat) slices :=
   match contract_slices strip cz prog slices with
   | None => None
-  | Some l => gather_stack (group_chunks (combine keys l))
+  | Some l => gather_stack chunk0d (group_chunks (combine keys l))
   end.
 
 (* gen_output_chunks: chunk = contract_slice(first); chunk = chunk + contract_slice(i)...
